@@ -745,4 +745,55 @@ theorem good_ifStmt (F : FloatOps) (B : List String) (pos bp : Pos) (c : Expr) (
           simp only [Bool.not_true, Bool.false_eq_true, if_false]
           exact sm_pure_run _ _ _
 
+/-! ### `if true { … }`: the compiler emits the body only -/
+
+theorem isTrueLit_inv {c : Expr} (h : isTrueLit c = true) : ∃ p, c = .bool p true := by
+  cases c with
+  | bool p b =>
+    cases b with
+    | true => exact ⟨p, rfl⟩
+    | false => simp [isTrueLit] at h
+  | _ => simp [isTrueLit] at h
+
+theorem good_ifTrueStmt (F : FloatOps) (B : List String) (pos bp p : Pos) (body : List Stmt) (els : Option Stmt) (nT : Nat)
+    (hT : GoodB F B nT (Compile.blockOf body (compileStmts body)) (fun fuel env => Sem.execBlock F fuel env body)) :
+    GoodB F B nT (compileStmt (.if_ pos none (.bool p true) bp body els))
+      (fun fuel env => Sem.execStmt F fuel env (.if_ pos none (.bool p true) bp body els)) := by
+  rw [Compile.compileStmt_eq]
+  simp only
+  refine good_withBlock F B B _ _ (fun fuel env => Sem.execBlock F fuel env body) _ hT.toC.pure_bind ?_
+  intro fuel env ss t c' env' ss' t' hsem
+  cases fuel with
+  | zero => exact (execStmt_zero' hsem).elim
+  | succ fuel =>
+    rw [execStmt_if] at hsem
+    obtain ⟨⟨c0, env1⟩, ss0, t0, h0, hsem⟩ := sm_bind_inv hsem
+    obtain ⟨hce, rfl, rfl⟩ := sm_pure_inv h0
+    simp only [Prod.mk.injEq] at hce
+    obtain ⟨rfl, rfl⟩ := hce
+    simp only at hsem
+    obtain ⟨rc, ss1, t1, hev, hsem⟩ := sm_bind_inv hsem
+    cases fuel with
+    | zero =>
+      have h0 : Sem.evalExpr F 0 ([] :: env) (.bool p true) = Sem.liftM (unsupported "sem: fuel") := rfl
+      rw [h0] at hev; exact (sm_unsupported_ne hev).elim
+    | succ f =>
+      have h1 : Sem.evalExpr F (f + 1) ([] :: env) (.bool p true) = pure (.val (.bool true)) := rfl
+      rw [h1] at hev
+      obtain ⟨hrc, rfl, rfl⟩ := sm_pure_inv hev
+      subst hrc
+      simp only at hsem
+      obtain ⟨fl, ss2, t2, hfl, hsem⟩ := sm_bind_inv hsem
+      obtain ⟨rfl, hfl'⟩ := sm_liftM_inv hfl
+      have hf : exec (isFalsy (.bool true)) t = (.ok false, t) := rfl
+      rw [hf] at hfl'
+      simp only [Prod.mk.injEq, Except.ok.injEq] at hfl'
+      obtain ⟨rfl, rfl⟩ := hfl'
+      simp only [Bool.not_false, if_true] at hsem
+      obtain ⟨⟨c1, envX⟩, ss3, t3, hb, hsem⟩ := sm_bind_inv hsem
+      obtain ⟨hce, rfl, rfl⟩ := sm_pure_inv hsem
+      simp only [Prod.mk.injEq] at hce
+      obtain ⟨rfl, rfl⟩ := hce
+      exact ⟨rfl, f + 1, envX, hb⟩
+
 end UgoVerif.CompSim
